@@ -306,6 +306,39 @@ def _recheck(F, ent):
                 return False, "an iteration of the rebuild loop in %s can skip %s (%s)" % (req["fn"], req["callee"], " -> ".join("bb%d" % b for b in path[:6]))
             return True, "%s calls %s on every iteration of its rebuild loop" % (req["fn"], req["callee"])
         return False, "%s does not call %s inside a loop" % (req["fn"], req["callee"])
+    if kind == "variant_arm_total":
+        # in `fn` (or a closure nested in it) a match on `enum` has an arm for `variant` from which no `None` answer can be reached:
+        # the rebuilt table has an entry for *every* value of that variant (a nested filter loses some of them)
+        from ..cfg import reachable
+        fns = [f for f in F.fns.values() if strip_generics(f.name) == req["fn"]]
+        if len(fns) != 1:
+            return False, "function %s: %d matches" % (req["fn"], len(fns))
+        cands = [fns[0]] + [F.fns[c] for c in F.closures_of(fns[0].id)]
+        found = 0
+        for f in cands:
+            for bi, b in enumerate(f.blocks):
+                tt = b["t"]
+                if tt["k"] != "switch":
+                    continue
+                for st in b["s"]:
+                    if st["k"] == "=" and st["rv"]["k"] == "discr" and str(st["rv"].get("ty", "")).split("<")[0].endswith(req["enum"]):
+                        vs = F.enum_variants(st["rv"]["ty"]) or []
+                        m = dict((v, bb) for v, bb in tt["ts"])
+                        for name, d, vi in vs:
+                            if name != req["variant"]:
+                                continue
+                            tgt = m.get(d)
+                            if tgt is None:
+                                return False, "%s has no arm of its own for %s::%s" % (f.name, req["enum"], req["variant"])
+                            found += 1
+                            for rb in reachable(f, tgt):
+                                for s2 in f.blocks[rb]["s"]:
+                                    if s2["k"] == "=" and not s2["lhs"]["p"] and s2["lhs"]["l"] == 0 and s2["rv"]["k"] == "agg" and str(s2["rv"].get("variant")) == "None":
+                                        return False, "in %s the %s::%s arm can answer None (%s): some %s values get no entry in the rebuilt table" % (
+                                            f.name, req["enum"].split("::")[-1], req["variant"], f.loc(s2), req["variant"])
+        if not found:
+            return False, "no match on %s with a %s arm found in %s" % (req["enum"], req["variant"], req["fn"])
+        return True, "every %s::%s gets an entry (%d arm%s)" % (req["enum"].split("::")[-1], req["variant"], found, "" if found == 1 else "s")
     if kind == "only_written_in":
         # field (adt, name) is stored / aggregated only in the listed functions
         adt, name = req["adt"], req["field"]
